@@ -11,6 +11,7 @@ from __future__ import annotations
 
 import ast
 import copy as _copy
+import datetime as _datetime
 import functools
 import operator
 
@@ -57,6 +58,7 @@ class SourceTypes:
                 "DataTypeError": ExcCtor("DataTypeError"),
                 "signature": LazyNS(senv),
                 "NoneType": type(None),
+                "datetime": _ModuleNS({k: getattr(_datetime, k) for k in ("datetime", "date", "time", "timedelta")}),
             }
         )
         memo = ("converts_to", "conversion_cost", "implicit_conversions", "is_const", "without_const", "with_const")
